@@ -59,6 +59,10 @@ def replay(driver, prop, path):
             failures = driver.check_case(case)
         except core.WatchdogTimeout:
             failures = [{"clause": "watchdog: case did not return"}]
+        except Exception as e:
+            if not core.raised_in_library(e):
+                raise
+            failures = [{"clause": "an exception escaped from the library while the property was being evaluated", "observed": f"{type(e).__name__}: {e}"}]
         finally:
             signal.setitimer(signal.ITIMER_PROF, 0)
         obs.append(core.jsonable(failures))
